@@ -89,6 +89,9 @@ class H(W.Hooks):
             ctx.violation("c02_tracking_differs_from_reference",
                           {"got": got, "want": want, "history": r.history})
 
+    def fork_diverged(self, run, detail):
+        self.ctx.violation("c02_copied_dispatcher_not_independent", detail)
+
     def end(self, run):
         from job_shop_lib.dispatching import Dispatcher
         ctx, r = self.ctx, run.r
